@@ -136,8 +136,10 @@ class Decoder:
             if size < 9 or off + size > len(buf):
                 raise DecodeError("string_size_word", f"size {size} at {off} (buffer {len(buf)})")
             data = bytes(buf[off + 8 : off + size])
-            z = data.find(b"\x00")
-            if z < 0:
+            # the text ends where the NUL padding begins (at least one terminator); a NUL inside the
+            # text is a character like any other for the library's own reader
+            z = len(data.rstrip(b"\x00"))
+            if z == len(data):
                 raise DecodeError("string_not_nul_terminated", f"at {off} size {size}")
             try:
                 text = data[:z].decode("utf8")
